@@ -47,7 +47,7 @@ Init == /\ g \in Geoms /\ L \in Layouts(g) /\ fresh \in BOOLEAN
         /\ posT = [b \in Bins(g) |-> Pos(g, L, b)]
         /\ store = [b \in Bins(g) |-> 0]
         /\ file = IF fresh THEN <<>> ELSE [i \in 1..NumBins(g) |-> 0]
-        /\ cnt = 0 /\ err = FALSE
+        /\ cnt = -1 /\ err = FALSE      \* -1: the theorems T1-T3 are evaluated on the successor (cnt = 0), i.e. by the parallel workers
 
 Did(s2, f2) == store' = s2 /\ file' = f2 /\ err' = FALSE /\ cnt' = cnt + 1 /\ UNCHANGED << g, L, fresh, posT >>
 Refused == err' = TRUE /\ cnt' = cnt + 1 /\ UNCHANGED << g, L, fresh, posT, store, file >>
@@ -124,8 +124,10 @@ FillWide == LET gs == WideGeo
             /\ SourceCovers(g, gs)
             /\ Did(FilledFromSource(g, gs, vals), StreamFillSource(g, L, file, src))
 
-Next == /\ cnt < Depth
-        /\ (SetBin \/ SetSino \/ SetView \/ SetSegV \/ SetSegS \/ SetRel \/ Fill \/ FillFrom \/ Sapyb \/ FillWide)
+Start == cnt = -1 /\ cnt' = 0 /\ UNCHANGED << g, L, fresh, posT, store, file, err >>
+Next == \/ Start
+        \/ /\ cnt >= 0 /\ cnt < Depth
+           /\ (SetBin \/ SetSino \/ SetView \/ SetSegV \/ SetSegS \/ SetRel \/ Fill \/ FillFrom \/ Sapyb \/ FillWide)
 Spec == Init /\ [][Next]_vars
 
 \* "no other bin changes ... whatever the storage order, segment order in the stream ... or backing store",
